@@ -25,9 +25,17 @@ TIMEOUT = 'tokio::time::timeout::timeout'
 SEND1 = 'tokio::sync::oneshot::Sender::send'
 
 
+KEEP = {WK + 'Worker::handle_connection', SH + 'WorkerHandle::shutdown', WK + 'WorkerHandle::shutdown', WK + 'Worker::poll_inboxes',
+        SH + 'Acceptor::poll_inboxes'}
+
+
 def coroutine_of(ctx, rule, item):
+    """the async body of `item`, with the private (sync or async) helpers it was split into inlined (P13); the functions the rules
+    anchor on are kept as calls"""
+    from ..inline import inlined
     bs = [b for b in ctx.fb.bodies_of_item(CR, item) if b.is_coroutine and b.nid == item + '::{closure#0}']
-    return ctx.need(rule, 'async body of ' + item, bs[0] if len(bs) == 1 else None)
+    b = ctx.need(rule, 'async body of ' + item, bs[0] if len(bs) == 1 else None)
+    return inlined(ctx.fb, b, keep=KEEP) if b is not None else None
 
 
 def blocks_calling(body, name, pred=None):
@@ -77,7 +85,20 @@ def r1_acceptor(ctx):
         t = b.term(bb)
         if t and t['k'] == 'drop' and not t['pl'].get('p') and is_listener_set(b.locals[t['pl']['l']]):
             drops.append(bb)
+    from ..inline import closures_of
+    from .compiler_common import slice_calls_with_closures
     wshut = blocks_calling(b, WK + 'WorkerHandle::shutdown')
+    # .. or told from a closure handed to an iterator adaptor (`handles.into_iter().map(|h| h.shutdown(..)).collect()`): the telling
+    # happens where the iterator is driven
+    told_in = [x.nid for x in closures_of(ctx.fb, b) if not x.is_coroutine and blocks_calling(x, WK + 'WorkerHandle::shutdown')]
+    if told_in:
+        defs0 = Defs(b)
+        for bb, t in b.calls():
+            c = callee(t) or ''
+            if c.startswith('core::iter::traits::iterator::Iterator::') and c.split('::')[-1] in ('collect', 'for_each', 'fold', 'count', 'last', 'try_for_each'):
+                sl0, _ = backward_slice(b, op_place(t['args'][0])['l'], defs0)
+                if any('rv' in n and n['rv']['k'] == 'agg' and n['rv'].get('ak') == 'closure' and strip_generics(n['rv'].get('def', '')) in told_in for _, _, n in sl0):
+                    wshut.append(bb)
     sends = blocks_calling(b, SEND1)
     ctx.need('C16.R1', 'WorkerHandle::shutdown call in Acceptor::shutdown', wshut)
     ctx.need('C16.R1', 'completion send in Acceptor::shutdown', sends)
@@ -101,7 +122,7 @@ def r1_acceptor(ctx):
         ctx.ob('C16.R1', 'one-await', len(touts) == 1 and guard_context(b, bb).get(MODE) == {'Graceful'}, b.loc(bb, t),
                'exactly one timeout(..) and it is under the Graceful arm')
     # the joined loop
-    inner = [x for x in ctx.fb.bodies_of_item(CR, SH + 'Acceptor::shutdown') if x.is_coroutine]
+    inner = [x for x in closures_of(ctx.fb, b) if x.is_coroutine]
     found = False
     for ib in inner:
         jn = blocks_calling(ib, 'tokio::task::join_set::JoinSet::join_next')
@@ -117,7 +138,7 @@ def r1_acceptor(ctx):
         defs = Defs(b)
         pl = op_place(sp[0][1]['args'][1])
         sl, _ = backward_slice(b, pl['l'], defs)
-        ctx.ob('C16.R1', 'joined-futures-are-worker-shutdowns', (WK + 'WorkerHandle::shutdown') in {c for c, _, _ in slice_calls(sl)},
+        ctx.ob('C16.R1', 'joined-futures-are-worker-shutdowns', (WK + 'WorkerHandle::shutdown') in slice_calls_with_closures(b, sl),
                b.loc(sp[0][0]), 'the futures joined under the timeout are the WorkerHandle::shutdown futures')
 
 
